@@ -70,6 +70,8 @@ func (p pair) dialer() ws.Dialer {
 		d.Header = ws.HandshakeHeaderString("X-C: 1\r\n")
 	case "long":
 		d.Header = ws.HandshakeHeaderString(longHeader("X-C"))
+	case "many":
+		d.Header = ws.HandshakeHeaderString(manyHeaders("X-C"))
 	}
 	return d
 }
@@ -101,8 +103,19 @@ func (p pair) upgrader() ws.Upgrader {
 		u.Header = ws.HandshakeHeaderString("X-S: 1\r\n")
 	case "long":
 		u.Header = ws.HandshakeHeaderString(longHeader("X-S"))
+	case "many":
+		u.Header = ws.HandshakeHeaderString(manyHeaders("X-S"))
 	}
 	return u
+}
+
+// manyHeaders: 300 short header lines (cookies, tracing, feature flags add up).
+func manyHeaders(prefix string) string {
+	var b strings.Builder
+	for i := 0; i < 300; i++ {
+		fmt.Fprintf(&b, "%s-%03d: v%d\r\n", prefix, i, i)
+	}
+	return b.String()
 }
 
 func normExt(xs []httphead.Option) string {
@@ -186,8 +199,11 @@ func main() {
 			for _, sp := range []string{"nil", "a", "b", "all"} {
 				for _, ce := range []string{"none", "pmd", "pmd-cmwb", "pmd-smwb10+pmd", "x"} {
 					for _, se := range []string{"none", "flate0", "flate1", "flate2", "accept-all"} {
-						for _, ch := range []string{"none", "short", "long"} {
-							for _, sh := range []string{"none", "short", "long"} {
+						for _, ch := range []string{"none", "short", "long", "many"} {
+							for _, sh := range []string{"none", "short", "long", "many"} {
+								if (ch == "many" || sh == "many") && (ce != "none" && ce != "pmd" || se == "flate2" || se == "accept-all") {
+									continue // the many-lines headers on a slice of the extension grid
+								}
 								for _, cb := range []int{0, 16, 64} {
 									for _, sb := range []int{0, 16, 64} {
 										pairs = append(pairs, pair{cp, sp, ce, se, ch, sh, cb, sb})
